@@ -4,7 +4,8 @@ Reactor timed calls — executable model of `src/twisted/internet/base.py`:
 * `DelayedCall.__init__/getTime/cancel/reset/delay/activate_delay/__le__/__lt__`
 * `ReactorBase.callLater`, `_moveCallLaterSooner`, `_cancelCallLater`, `getDelayedCalls`,
   `_insertNewDelayedCalls`, `timeout`, `runUntilCurrent` (timed-call part, incl. the
-  cancelled-call compaction at its end)
+  cancelled-call compaction at its end, and what it does with a function that raises: `Stmt`,
+  `executed`)
 * CPython's `heapq.heappush/heappop/heapify` (`_heapq`: `siftdown`/`siftup`, which exchange
   entries pairwise while walking) as used by those methods.
 
@@ -221,6 +222,32 @@ def applyOp (s : Sys) : Op → Sys × Nat × Res
   | .delay ref secs => match resolve s ref with
     | none => (s, 0, .noid)
     | some id => let r := delay s id secs; (r.1, id, r.2)
+
+/-! ## user functions that raise
+
+`runUntilCurrent` runs `call.func(*call.args, **call.kw)` inside `with logHandler:`; both handlers
+(`_log.failureHandler` → `_FastFailCtxMgr`, and `_log.failuresHandled` → `_FailCtxMgr`, used when
+`DelayedCall.debug` recorded a creator stack; `twisted/logger/_logger.py`) log the failure and
+return `True` from `__exit__` for EVERY exception class — inside or outside the `Exception`
+hierarchy.  `call.called = 1` is set before the function is entered.  So for the timer state a
+function that raises is the function made of its statements before the first `raise`: the loop goes
+on with the next due call. -/
+
+/-- a statement of the body of a user function: one of the operations, or `raise` (`kind` names
+    the exception class; it does not matter which) -/
+inductive Stmt where
+  | op (o : Op)
+  | raise (kind : Nat)
+deriving Repr, DecidableEq
+
+/-- the part of a body that is executed: the operations before the first `raise` -/
+def executed : List Stmt → List Op
+  | [] => []
+  | .op o :: rest => o :: executed rest
+  | .raise _ :: _ => []
+
+/-- the initial state for a table of function bodies that may raise -/
+def Sys.initProg (now : Int) (progs : List (List Stmt)) : Sys := Sys.init now (progs.map executed)
 
 /-- observable events; `run` carries the state at the moment the call's function is entered
     (popped from the heap, `called` not yet set) — used by the theorems, printed as `(id, now)` -/
